@@ -1,4 +1,4 @@
 From MV Require Import Lib.ExtractBase C15.Model.
 From Coq Require Import ExtrOcamlBasic.
 Extraction Language OCaml.
-Extraction "c15_model" force_types init step run n_freed pinit pstep prun p_order by_writer.
+Extraction "c15_model" force_types init initf step run n_freed pinit pstep prun p_order by_writer.
